@@ -16,6 +16,8 @@ Decided:
            unswapped; both index and index2 candidates are enumerated for a chunk range covering 0..=9
 Not decided: CRC values (C12 decides the table and algorithm shape), behaviour across real chunk sets (execution).
 """
+import re
+
 from .. import wire as W
 from ..mir import const_int, op_place
 from ..prov import derive, index_of
@@ -494,6 +496,25 @@ def run(ctx):
                 if "PartialEq" in (t.get("res") or "") and "Hash" in (t.get("res") or ""):
                     cmp_ok = True
         ctx.ob("PROV", "find_entry|hash-compare", cmp_ok, "entries are matched by equality of the Hash value", fb.file, fb.line, trivial=True)
+        # SCAN: a stored path is found wherever its entry sits in the table - the lookup walks the entries and compares
+        # hashes for equality; it does not rely on the table being sorted (bisection) or on an ordering of hashes
+        from ..loops import classify
+
+        ORDERED = ("binary_search", "binary_search_by", "binary_search_by_key", "partition_point", "sort", "sort_by", "sort_unstable", "sort_by_key", "is_sorted")
+        WALK = ("find", "any", "position", "find_map", "filter", "all", "try_for_each", "for_each", "try_fold", "fold", "rfind", "rposition")
+        n_scan = 0
+        for fnm in ("find_entry", "exists"):
+            full = f"sqpack::index::SqPackIndex::{fnm}"
+            bodies_ = prog.deep_bodies(full)
+            if not bodies_:
+                continue
+            n_scan += 1
+            lasts = [(re.sub(r"::<[^<>]*>$", "", t.get("res") or "").split("::")[-1], (t.get("res") or "")) for b_ in bodies_ for _bi, t in b_.calls()]
+            ordered = sorted({l for l, _r in lasts if l in ORDERED} | {l for l, r_ in lasts if "cmp::Ord" in r_ or "PartialOrd" in r_})
+            eq = any("PartialEq" in r_ and "Hash" in r_ for _l, r_ in lasts)
+            walks = any(l in WALK and "Iterator" in r_ for l, r_ in lasts) or any(lp["kind"] in ("ITER", "ACCESS") for lp in classify(bodies_[0]))
+            ctx.ob("SCAN", f"{fnm}|every-entry", eq and walks and not ordered, f"{fnm}: walks the entries ({walks}) comparing hashes for equality ({eq}); order-dependent search calls: {ordered}", bodies_[0].file, bodies_[0].line, sample=(fnm == "find_entry"))
+        ctx.floor("SCAN", "index lookups examined", n_scan, 2)
     else:
         ctx.fail_closed("PROV", "SqPackIndex::find_entry not found")
     gb = prog.body("gamedata::GameData::get_index_filenames")
